@@ -15,6 +15,8 @@ pub async fn list_objects(
     prefix: &str,
     max_keys: Option<usize>,
 ) -> crate::result::Result<BucketListResult> {
+    #[cfg(nexrad_verif)]
+    use crate::verif::reqwest;
     let mut path = format!("https://{bucket}.s3.amazonaws.com?list-type=2&prefix={prefix}");
     if let Some(max_keys) = max_keys {
         path.push_str(&format!("&max-keys={}", max_keys));
